@@ -37,7 +37,8 @@ ASSUMPTIONS = [
 EXHAUSTIVE = ["all fault scripts of length <= 2 (quick) / <= 3 (thorough) over the 21-action alphabet, on TCP and Unix sockets"]
 
 ALPHA = ["ok_ka", "ok_close", "ok_chunked", "ok_nolen_close", "refuse", "close_noreply", "reset", "st_cl", "st_nolen_close", "st_bodiless", "trunc", "empty200", "nonjson",
-         "st_202_body", "st_204_ka", "st_304_ka", "st_chunked", "st_103_then_200", "st_520_noreason", "st_json_result", "st_json_error"]
+         "st_202_body", "st_204_ka", "st_304_ka", "st_chunked", "st_103_then_200", "st_520_noreason", "st_json_result", "st_json_error",
+         "gzip_cut"]
 STATUS = {"st_json_result": 503, "st_json_error": 500, "st_cl": 503, "st_nolen_close": 500, "st_bodiless": 502, "st_202_body": 202, "st_204_ka": 204, "st_304_ka": 304, "st_chunked": 503,
           "st_103_then_200": 103, "st_520_noreason": 520}
 HEALTHY = ("ok_ka", "ok_close", "ok_chunked", "ok_nolen_close")
@@ -53,6 +54,7 @@ class Peer(object):
         self.path = netpeer.unix_path("peer") if family == "unix" else None
         self.script = collections.deque()
         self.consumed = []
+        self.gzip_all = False
         self.stop = False
         self.lock = threading.Lock()
         self.conns = []
@@ -132,12 +134,23 @@ class Peer(object):
                 self.consumed.append((act, token))
 
                 def send(status, payload, extra=b"", length=True):
+                    if self.gzip_all and status == b"200 OK" and payload:
+                        # a peer (or a reverse proxy in front of it) that compresses every answer it gives
+                        import gzip as _gzip
+                        payload = _gzip.compress(payload)
+                        extra += b"Content-Encoding: gzip\r\n"
                     h = b"HTTP/1.1 " + status + b"\r\n" + extra
                     if length:
                         h += b"Content-Length: %d\r\n" % len(payload)
                     c.sendall(h + b"\r\n" + payload)
 
-                if act == "ok_ka":
+                if act == "gzip_cut":
+                    # a compressed answer whose body is cut inside the compressed stream (complete as far as HTTP goes)
+                    import gzip as _gzip
+                    z = _gzip.compress(good)
+                    z = z[:max(12, len(z) // 2)]
+                    c.sendall(b"HTTP/1.1 200 OK\r\nContent-Encoding: gzip\r\nContent-Length: %d\r\n\r\n" % len(z) + z)
+                elif act == "ok_ka":
                     send(b"200 OK", good)
                 elif act == "ok_close":
                     send(b"200 OK", good, b"Connection: close\r\n")
@@ -233,6 +246,8 @@ def run_script(peer, script, tail=3):
 
     peer.script.clear()
     del peer.consumed[:]
+    # one script in four meets a peer that compresses all its answers
+    peer.gzip_all = (len(script) + sum(map(len, script))) % 4 == 1
     if peer.family == "tcp":
         # paths and query strings with the characters a URL may legally hold there ('@' included)
         suffix = ["/rpc", "/rpc?x=1&y=a%20b", "/p@th/rpc?notify=ops@example.org", "/", "/rpc?at=@"][(len(script) + sum(len(a) for a in script)) % 5]
